@@ -315,3 +315,103 @@ class Report:
         if r[0] != "s":
             return None
         return r[1 + c]
+
+
+# ---------------------------------------------------------------- what cargo-vet read vs what the files say
+def fidelity(case, o):
+    """Independent of every verdict: the store the implementation parsed (as the harness interned it, which is the
+    model's input) must be the store the generator wrote, and the third-party classification must follow the
+    sources and the policy table.  Guards the oracles against taking their ground truth from a value the
+    implementation computed."""
+    from collections import Counter
+    out = []
+    st = case.get("store_struct")
+    mi = o.get("model_input") or {}
+    tb = o.get("tables") or {}
+    if not st or "store" not in mi or not tb.get("names"):
+        return out
+    names, vers, crits = tb["names"], tb["versions"], tb["criteria"]
+
+    def cn(l):
+        return tuple(crits[c] if c < len(crits) else "?" for c in l)
+
+    def vs(r):
+        return vers[r] if r < len(vers) else "?"
+    locked = case.get("mode", "locked") == "locked"
+    for ni, n in enumerate(names):
+        ps = pkg_store(mi["store"], ni)
+        # local audits
+        want = Counter()
+        for a in st["audits"].get(n, []):
+            k = a.get("kind")
+            if k == "full":
+                want[("full", a["version"], tuple(a["criteria"]), a.get("importable", True))] += 1
+            elif k == "delta":
+                want[("delta", a["from"], a["to"], tuple(a["criteria"]), a.get("importable", True))] += 1
+            else:
+                want[("violation", tuple(a["criteria"]))] += 1
+        got = Counter()
+        for a in ps[1]:
+            k, ka, crit, imp, _ = audit_fields(a)
+            if k == "KFull":
+                got[("full", vs(ka[0]), cn(crit), imp)] += 1
+            elif k == "KDelta":
+                got[("delta", vs(ka[0]), vs(ka[1]), cn(crit), imp)] += 1
+            else:
+                got[("violation", cn(crit))] += 1
+        if want != got:
+            out.append(f"audits.toml says {sorted(want.elements(), key=str)[:3]} for {n}; cargo-vet read {sorted(got.elements(), key=str)[:3]}")
+        # exemptions
+        want = Counter((x["version"], tuple(x["criteria"]), x.get("suggest", True)) for x in st["exemptions"].get(n, []))
+        got = Counter((vs(args(x)[0]), cn(args(x)[1]), args(x)[2]) for x in ps[7])
+        if want != got:
+            out.append(f"config.toml exempts {sorted(want.elements(), key=str)[:3]} for {n}; cargo-vet read {sorted(got.elements(), key=str)[:3]}")
+        # local wildcard audits and trusted entries: user and criteria
+        want = Counter((w["user-id"], tuple(w["criteria"])) for w in st["wildcard_audits"].get(n, []))
+        got = Counter((args(w)[0], cn(args(w)[3])) for w in ps[3])
+        if want != got:
+            out.append(f"wildcard audits of {n}: file {sorted(want.elements(), key=str)[:3]}, read {sorted(got.elements(), key=str)[:3]}")
+        want = Counter((w["user-id"], tuple(w["criteria"])) for w in st["trusted"].get(n, []))
+        got = Counter((args(w)[0], cn(args(w)[3])) for w in ps[4])
+        if want != got:
+            out.append(f"trusted entries of {n}: file {sorted(want.elements(), key=str)[:3]}, read {sorted(got.elements(), key=str)[:3]}")
+        if locked:
+            want = Counter((p_["version"], p_["user-id"]) for p_ in st["lock"]["publisher"].get(n, []))
+            got = Counter((vs(args(p_)[0]), args(p_)[1]) for p_ in ps[5])
+            if want != got:
+                out.append(f"publisher records of {n}: imports.lock {sorted(want.elements(), key=str)[:3]}, read {sorted(got.elements(), key=str)[:3]}")
+            want = Counter((u["version"], u["audited_as"]) for u in st["lock"]["unpublished"].get(n, []))
+            got = Counter((vs(args(u)[0]), vs(args(u)[1])) for u in ps[6])
+            if want != got:
+                out.append(f"unpublished records of {n}: imports.lock {sorted(want.elements(), key=str)[:3]}, read {sorted(got.elements(), key=str)[:3]}")
+            peers = sorted(st["lock"]["audits"])
+            for pi, peer in enumerate(peers):
+                wl = Counter()
+                for a in st["lock"]["audits"][peer].get("audits", {}).get(n, []):
+                    wl[(a.get("kind"), tuple(a["criteria"]))] += 1
+                gl = Counter()
+                if pi < len(ps[0]):
+                    for a in ps[0][pi]:
+                        k, ka, crit, imp, _ = audit_fields(a)
+                        gl[({"KFull": "full", "KDelta": "delta", "KViolation": "violation"}[k], cn(crit))] += 1
+                if wl != gl:
+                    out.append(f"imports.lock audits of {n} from {peer}: file {sorted(wl.elements(), key=str)[:3]}, read {sorted(gl.elements(), key=str)[:3]}")
+    # third-party classification
+    nodes, _ = graph_nodes(mi["graph"])
+    pol = st.get("policy", {})
+    labels = tb.get("nodes") or []
+    bylabel = {}
+    for p_ in case["graph"]["packages"]:
+        v = p_["version"] + ("@git:" + p_["source"][4:] if p_["source"].startswith("git:") else "")
+        bylabel[f"{p_['name']}:{v}"] = p_
+    for i, nd in enumerate(nodes):
+        p_ = bylabel.get(labels[i]) if i < len(labels) else None
+        if p_ is None:
+            continue
+        v = labels[i].split(":", 1)[1]
+        e = pol.get(p_["name"]) or pol.get(f"{p_['name']}:{v}") or {}
+        want = p_["source"] == "registry" or e.get("audit-as-crates-io") is True
+        if want != nd["third"]:
+            out.append(f"{labels[i]} (source {p_['source']}, audit-as-crates-io={e.get('audit-as-crates-io')}) is treated as "
+                       f"{'third' if nd['third'] else 'first'} party")
+    return out
